@@ -67,6 +67,13 @@ Definition prim_sig (p : prim) : list ty * ty :=
   | PCat => ([TStr; TStr], TStr)
   | PLen => ([TStr], TMI)
   | PSEq | PSNe => ([TStr; TStr], TBool)
+  | PLCons b => ([ty_of_bty b; TList b], TList b)
+  | PLFirst b => ([TList b], ty_of_bty b)
+  | PLRest b | PLRev b => ([TList b], TList b)
+  | PLLen b => ([TList b], TMI)
+  | PLEmptyQ b => ([TList b], TBool)
+  | PLEq b | PLNe b => ([TList b; TList b], TBool)
+  | PLNth b => ([TList b; TMI], ty_of_bty b)
   end.
 
 (* ---- overload resolution ---- *)
@@ -117,6 +124,8 @@ Fixpoint eff (fs : list fundef) (e : expr) : bool :=
   | EIf c a b => (eff fs c || eff fs a || eff fs b)%bool
   | EAnd a b | EOr a b => (eff fs a || eff fs b)%bool
   | ESeq ss e => match ss with [] => eff fs e | _ => true end
+  | EMac _ e => eff fs e
+  | EListLit _ es => existsb (eff fs) es
   end.
 
 Fixpoint stable (cx : ctx) (e : expr) : bool :=
@@ -129,7 +138,12 @@ Fixpoint stable (cx : ctx) (e : expr) : bool :=
   | EIf c a b => (stable cx c && stable cx a && stable cx b)%bool
   | EAnd a b | EOr a b => (stable cx a && stable cx b)%bool
   | ESeq _ _ => false
+  | EMac _ e => stable cx e
+  | EListLit _ es => forallb (stable cx) es
   end.
+
+Definition mac_nty (m : mac) : nty := match m with MDbl n | MSqr n => n end.
+Definition mac_prim (m : mac) : prim := match m with MDbl n => PAdd n | MSqr n => PMul n end.
 
 Definition ordered_args (cx : ctx) (es : list expr) : bool :=
   let n := List.length (filter (eff (cF cx)) es) in
@@ -193,6 +207,20 @@ Fixpoint infer (cx : ctx) (e : expr) {struct e} : option ty :=
       | Some t => if forallb (check_stmt (with_seq cx (Some t))) ss then Some t else None
       | None => None
       end
+  | EMac m e =>
+      (* the two copies of the argument are operands of one call: their evaluation order is
+         not defined, so the argument must be free of effects                              *)
+      match infer cx e with
+      | Some t => if (ty_eqb t (ty_of_nty (mac_nty m)) && negb (eff (cF cx) e))%bool
+                  then Some t else None
+      | None => None
+      end
+  | EListLit b es =>
+      match map_opt (infer cx) es with
+      | Some tys => if (forallb (fun t => ty_eqb t (ty_of_bty b)) tys && ordered_args cx es)%bool
+                    then Some (TList b) else None
+      | None => None
+      end
   end
 with check_stmt (cx : ctx) (s : stmt) {struct s} : bool :=
   match s with
@@ -221,6 +249,9 @@ with check_stmt (cx : ctx) (s : stmt) {struct s} : bool :=
       (opt_ty_eqb (infer cx lo) TMI && opt_ty_eqb (infer cx hi) TMI
        && ordered_args cx [lo; hi]
        && forallb (check_stmt (in_loop (push_local cx (TMI, false)))) body)%bool
+  | SForIn b l body =>
+      (opt_ty_eqb (infer cx l) (TList b)
+       && forallb (check_stmt (in_loop (push_local cx (ty_of_bty b, false)))) body)%bool
   | SBreak | SIterate => cLoop cx
   | SReturn e => match cRet cx with Some t => opt_ty_eqb (infer cx e) t | None => false end
   | SExit c s' =>
@@ -237,6 +268,14 @@ with check_stmt (cx : ctx) (s : stmt) {struct s} : bool :=
                      && match check_call cx name tys with Some _ => true | None => false end)%bool
       | None => false
       end
+  | SError e => (negb (cPure cx) && opt_ty_eqb (infer cx e) TStr)%bool
+  | SNever | SThrow _ =>
+      (negb (cPure cx) && match s with SThrow k => Nat.ltb k n_exn | _ => true end)%bool
+  | STry body hs =>
+      (negb (cPure cx)
+       && forallb (check_stmt (with_seq cx None)) body
+       && forallb (fun h => (Nat.ltb (fst h) n_exn
+                             && forallb (check_stmt (with_seq cx None)) (snd h))%bool) hs)%bool
   end.
 
 Definition check_block (cx : ctx) (ss : list stmt) : bool := forallb (check_stmt cx) ss.
